@@ -7,6 +7,8 @@ from ..srcmodel import unparse, norm, calls_in
 from .common import is_method_call
 from . import containers as ct
 
+from .common import Guard  # noqa: E402
+
 PROP = 'C17'
 DECIDED = [
     'R1: two-store pairing: for every mutator of ConfigDict / ConfigList named by the property (and __init__, and every subclass) the built-in storage and the child map receive the same updates on every structural path (calls on self inlined; idioms: append = set(len), rollback on raise, storage initialised from the child map, deletion guarded by non-membership), or the method ends by re-deriving the child map from the storage (which also re-establishes order and 0..n-1 numbering).',
@@ -29,13 +31,16 @@ def r3(repo, run):
 
 
 def check(repo, run, tier):
-    n = ct.pairing(repo, run, 'C17.R1')
+    g = Guard()
+    n = g(ct.pairing, repo, run, 'C17.R1') or 0
     subs = [c for c in repo.subclasses('ConfigDict', strict=True) + repo.subclasses('ConfigList', strict=True)]
-    n += ct.pairing(repo, run, 'C17.R1', classes=subs, rule_override=None)
+    n += g(ct.pairing, repo, run, 'C17.R1', classes=subs, rule_override=None) or 0
     run.table('C17.R1', n, 'structural paths analysed over %d classes' % (2 + len(subs)))
-    run.floor('C17.R1', 24, '(12 operations x 2 classes)')
-    ct.unnamed_info(repo, run, 'C17.R2')
-    r3(repo, run)
+    if g.pending is None:
+        run.floor('C17.R1', 24, '(12 operations x 2 classes)')
+    g(ct.unnamed_info, repo, run, 'C17.R2')
+    g(r3, repo, run)
+    g.done()
 
 
 def mutants(repo):
